@@ -142,7 +142,8 @@ ExpectedCompose(c) ==
                 \o UpdAll(t2, c.ups, 1) \o PredEv(t2, Cutoff(c), c.fh),
      ret |-> [i \in DOMAIN c.fh |-> LET v == Val(t2, Cutoff(c), i, 1) IN <<v[1], v[2]>>],
      index |-> [i \in DOMAIN c.fh |-> Cutoff(c) + c.fh[i]],
-     protos_unfitted |-> TRUE, independent |-> TRUE]
+     protos_unfitted |-> TRUE, independent |-> TRUE,
+     alpha_ok |-> TRUE]        \* a multiplexer hands the requested interval level on to its selected member
 
 (* ---- C09 clauses on any claimed event list ------------------------------ *)
 \* the final forecaster of a pipeline only ever sees the fully transformed representation
